@@ -1,4 +1,5 @@
 """Verification harness of engine A: run a function under contract, collect obligations."""
+import os
 import time
 import traceback
 
@@ -7,6 +8,7 @@ import z3
 from .values import V, SV, Obj, SeqV, ArrV, CaseV, DictV, FuncV, Undecided, fresh_name
 from .core import Contract, PyRaise, Path
 from .interp import Interp, ContractPre, lst_copy
+from . import solve
 
 
 class Eng(Interp):
@@ -111,8 +113,10 @@ class FuncCheck:
         parts = qual.split('.')
         self.short = '.'.join(parts[-2:]) if parts[-2][:1].isupper() else parts[-1]
         self.case = case_name
-        self.results = {}     # obligation name -> list of (status, model, dt, pathno)
+        self.results = {}     # obligation name -> list of (status|future, model, dt, pathno, note, backend)
         self.failed = []
+        self.thorough = getattr(run, 'tier', 'quick') == 'thorough'
+        self.limit_s = 120 if self.thorough else 40
 
     def name(self, label):
         c = f'[{self.case}]' if self.case else ''
@@ -146,6 +150,8 @@ class FuncCheck:
             while work:
                 prefix = work.pop()
                 E.pc = []
+                E.facts = []
+                E._fact_keys = set()
                 E.loops = []
                 E.rand_count = {}
                 E.perms = []
@@ -194,7 +200,7 @@ class FuncCheck:
         self.cur = (p, k)
         # canary: the path condition (with the library facts) must be satisfiable
         if E.sat(timeout_ms=10000) == z3.unsat:
-            self.results.setdefault('canary', []).append(('refuted', None, 0.0, k))
+            self.results.setdefault('canary', []).append(('refuted', None, 0.0, k, None, 'z3'))
         if p.outcome == 'raise':
             cond = allow_raise(E, p.args, p.kwargs, p) if allow_raise else None
             if cond is None:
@@ -211,21 +217,20 @@ class FuncCheck:
         try:
             if isinstance(goal, bool):
                 goal = z3.BoolVal(goal)
-            st, model, dt = E.prove(goal, pc=p.pc)
+            if z3.is_true(z3.simplify(goal)):
+                self.results.setdefault(label, []).append(('proved', None, 0.0, k, note, 'simplify'))
+                return
+            fut = solve.submit(E.assertions_for(goal, pc=p.pc), limit_s=self.limit_s, thorough=self.thorough)
+            self.results.setdefault(label, []).append((fut, None, 0.0, k, note, None))
         except Undecided as u:
-            st, model, dt = 'unknown', None, 0.0
-            note = str(u)
-        self.results.setdefault(label, []).append((st, model, dt, k, note))
-        import os
-        if os.environ.get('VERIF_DEBUG'):
-            print(f'   [{self.short} {self.case} path{k}] {label}: {st} {dt:.2f}s', flush=True)
+            self.results.setdefault(label, []).append(('unknown', None, 0.0, k, str(u), 'engine'))
 
     def ensure_eq(self, label, a, b):
         try:
             g = self.E.veq(a, b)
         except Undecided as u:
             p, k = self.cur
-            self.results.setdefault(label, []).append(('unknown', None, 0.0, k, str(u)))
+            self.results.setdefault(label, []).append(('unknown', None, 0.0, k, str(u), 'engine'))
             return
         self.ensure(label, g)
 
@@ -234,19 +239,30 @@ class FuncCheck:
             if label == 'canary':
                 self.run.undecide(self.name('canary'), 'infeasible path condition: facts or precondition inconsistent')
                 continue
-            sts = [r[0] for r in rs]
-            dt = sum(r[2] for r in rs)
+            done = []
+            for r in rs:
+                if not isinstance(r[0], str):
+                    st, model, dt, backend = r[0].result()
+                    r = (st, model, dt, r[3], r[4], backend)
+                done.append(r)
+                if os.environ.get('VERIF_DEBUG'):
+                    print(f'   [{self.short} {self.case} path{r[3]}] {label}: {r[0]} {r[2]:.2f}s {r[5]}', flush=True)
+            sts = [r[0] for r in done]
+            dt = sum(r[2] for r in done)
+            backends = ','.join(sorted({str(r[5]) for r in done}))
             nm = self.name(label)
+            if any(s == 'disagree' for s in sts):
+                raise RuntimeError(f'solver disagreement on {nm}: {[r[1] for r in done if r[0] == "disagree"]}')
             if all(s == 'proved' for s in sts):
-                self.run.obligation(nm, 'proved', 'z3', dt, detail=f'{len(rs)} path(s)')
+                self.run.obligation(nm, 'proved', backends, dt, detail=f'{len(done)} path(s)')
             elif any(s == 'refuted' for s in sts):
-                bad = [r for r in rs if r[0] == 'refuted'][0]
-                detail = dict(path=bad[3], note=bad[4] if len(bad) > 4 else None, model=_model_str(bad[1]))
-                self.run.obligation(nm, 'refuted', 'z3', dt, detail=detail)
+                bad = [r for r in done if r[0] == 'refuted'][0]
+                detail = dict(path=bad[3], note=bad[4], model=(bad[1] or '')[:1500])
+                self.run.obligation(nm, 'refuted', backends, dt, detail=detail)
                 self.failed.append((nm, label, detail))
             else:
-                notes = [r[4] for r in rs if len(r) > 4 and r[4]]
-                self.run.obligation(nm, 'unknown', 'z3', dt, detail='; '.join(map(str, notes))[:300])
+                notes = [str(r[4]) for r in done if r[4]] + [str(r[1])[:100] for r in done if r[0] == 'unknown' and r[1]]
+                self.run.obligation(nm, 'unknown', backends, dt, detail='; '.join(notes)[:300])
         self.results = {}
 
 
